@@ -959,14 +959,43 @@ Definition beyond_size_b (A : area) : bool :=
   negb (a_sized A) && negb (a_size A =? 0) && (a_size A <? image_size (reg_imgs (a_regs A))).
 Definition known_class_b (A : area) : bool := has_alt_b A || has_short_group_b A || beyond_size_b A.
 
-(* every area of every family and revision in the database is well formed, or belongs to a recorded class *)
-Lemma all_areas_swept_lemma : forallb (fun A => wf_area_b A || known_class_b A) all_areas = true.
+(* A member of a recorded class is excused for the defect that defines the class and for nothing else: wf_area_x_b is
+   wf_area_b with exactly three clauses relaxed, each only where the defect is exhibited:
+     - a top-level register that HAS alternative widths may have them (they must be positive multiples of 8 up to the width);
+     - a grouped register that IS wider than its sub-registers may be (sub-registers of one width, not more than the group);
+     - a segment register file that IS longer than the documented SIZE may be (never shorter).
+   Everything else (widths, value ranges, bit-fields inside their register and pairwise disjoint, registers inside a sized
+   binary, fill, seal, computed fields, duplicate computed registers, the XMCD option) is demanded of every area. *)
+Definition has_alt_reg_b (r : reg) : bool := match s_alt (r_base r) with [] => false | _ => true end.
+Definition wf_reg_x_b (r : reg) : bool :=
+  wf_sreg_b (has_alt_reg_b r) (r_base r) && forallb (wf_sreg_b false) (r_subs r) &&
+  match r_subs r with
+  | [] => true
+  | s0 :: _ => forallb (fun s => s_width s =? s_width s0) (r_subs r) &&
+               (if short_group_b r then Z.of_nat (length (r_subs r)) * s_width s0 <? s_width (r_base r)
+                else Z.of_nat (length (r_subs r)) * s_width s0 =? s_width (r_base r)) &&
+               (s_value (r_base r) =? 0)
+  end.
+Definition wf_area_x_b (A : area) : bool :=
+  forallb reg_fields_disjoint_b (g_regs (a_regs A)) &&
+  forallb wf_reg_x_b (g_regs (a_regs A)) &&
+  forallb (reg_fits_b (area_total A)) (g_regs (a_regs A)) &&
+  (0 <=? a_size A) && (negb (a_sized A) || ((0 <? a_size A) && (0 <=? a_kind A) && (a_kind A <=? 3))) &&
+  (a_fill A <? 256)%N &&
+  forallb (comp_ok_b (a_regs A)) (a_computed A) && nodup_b (map comp_reg (a_computed A)) &&
+  match a_seal A with Some (start, count) => (0 <=? start) && (0 <=? count) && (start + 4 * count <=? a_size A) | None => true end &&
+  (a_sized A || (a_size A =? 0) || (if beyond_size_b A then true else image_size (reg_imgs (a_regs A)) =? a_size A)) &&
+  match a_opt A with Some _ => a_kind A =? 7 | None => true end.
+
+(* every area of every family and revision in the database satisfies every clause outside its recorded defect, and is
+   fully well formed unless it exhibits one of the three recorded defects *)
+Lemma all_areas_swept_lemma : forallb (fun A => wf_area_x_b A && (wf_area_b A || known_class_b A)) all_areas = true.
 Proof. vm_compute. reflexivity. Qed.
 
 Lemma all_areas_wf_lemma A : In A all_areas -> known_class_b A = false -> wf_area A.
 Proof.
   intros Hin Hk. apply wf_area_b_sound. pose proof all_areas_swept_lemma as H. rewrite forallb_forall in H.
-  specialize (H A Hin). rewrite Hk, orb_false_r in H. exact H.
+  specialize (H A Hin). apply andb_true_iff in H. destruct H as (_ & H). rewrite Hk, orb_false_r in H. exact H.
 Qed.
 
 (* the classes are not empty words: the recorded findings are in today's data *)
